@@ -1,1 +1,398 @@
-/-! Property theorems for C02 — placeholder until the property's model is built. -/
+import FcpptProofs.C02.Refine
+import FcpptProofs.C02.Sound
+import FcpptProofs.C02.Progress
+import FcpptProofs.C02.Total
+set_option linter.unusedSimpArgs false
+set_option linter.unusedVariables false
+/-!
+# C02 — property theorems: fcppt.parse implements ordered-choice (PEG) semantics
+
+`M.run` / `M.parseString` (FcpptModel/Model/C02.lean) mirror the headers with an explicit stream
+position that is saved and restored; `S.parse` and `Derives` (FcpptModel/Spec/C02.lean) are the
+documented semantics on the remaining input.  All theorems hold for every grammar (including
+recursive and ill-formed ones), every skipper, every input, every start position and every amount of
+fuel; nothing is restricted to the sizes the correspondence enumerates.
+Only theorems live here; lemmas are in `FcpptProofs/C02/`.
+-/
+namespace Fcppt.C02
+
+/-! ## implementation model = documented semantics -/
+
+/-- Skippers: the position-threading run (with its save/restore in `repetition`) observes exactly
+the position-free semantics on the remaining input. -/
+theorem skip_refines_spec (s : List Nat) (f : Nat) (sk : Sk) (pos : Nat) :
+    (M.skip s f sk pos).map (absSk s) = S.skip f sk (s.drop pos) :=
+  skip_refines s f sk pos
+
+/-- **Refinement**: for every fuel, grammar, parser, skipper, input and start position the outcome
+of the position-threading run — value and what is left of the input, or failure and its fatal flag,
+or out of fuel — is the outcome of the position-free semantics on `s.drop pos`.  Every
+`set_position` of alternative / optional / not_ / repetition therefore rewinds to exactly the
+input the documented semantics continues with. -/
+theorem run_refines (g : G) (s : List Nat) (f : Nat) (p : P) (sk : Sk) (pos : Nat) :
+    (M.run g s f p sk pos).map (absRes s) = S.parse g f p sk (s.drop pos) :=
+  run_refines' g s f p sk pos
+
+/-- the string entry points (skipper first, parser, `consume_remaining`) agree as well -/
+theorem parseString_refines_spec (g : G) (f : Nat) (p : P) (sk : Sk) (s : List Nat) :
+    M.parseString g f p sk s = S.parseString g f p sk s :=
+  parseString_refines g f p sk s
+
+/-- more fuel never changes an outcome -/
+theorem fuel_mono {g : G} {f f' : Nat} {p : P} {sk : Sk} {inp : List Nat} {r : Res}
+    (h : S.parse g f p sk inp = some r) (hle : f ≤ f') : S.parse g f' p sk inp = some r :=
+  parse_mono hle h
+
+/-- every outcome the interpreter computes is derivable in the documented big-step semantics -/
+theorem parse_sound_spec {g : G} {f : Nat} {p : P} {sk : Sk} {inp : List Nat} {r : Res}
+    (h : S.parse g f p sk inp = some r) : Derives g p sk inp r :=
+  parse_sound h
+
+/-- every derivable outcome is computed, given enough fuel -/
+theorem parse_complete_spec {g : G} {p : P} {sk : Sk} {inp : List Nat} {r : Res}
+    (h : Derives g p sk inp r) : ∃ f, S.parse g f p sk inp = some r :=
+  parse_complete h
+
+theorem skip_sound_spec {f : Nat} {sk : Sk} {inp : List Nat} {r : SkRes}
+    (h : S.skip f sk inp = some r) : SkDerives sk inp r := skip_sound h
+
+theorem skip_complete_spec {sk : Sk} {inp : List Nat} {r : SkRes} (h : SkDerives sk inp r) :
+    ∃ f, S.skip f sk inp = some r := skip_complete h
+
+/-- **Unique derivation**: the outcome (success value, rest of the input, failure, fatal flag) of a
+parser on an input is determined. -/
+theorem derives_functional {g : G} {p : P} {sk : Sk} {inp : List Nat} {r₁ r₂ : Res}
+    (h₁ : Derives g p sk inp r₁) (h₂ : Derives g p sk inp r₂) : r₁ = r₂ := by
+  obtain ⟨f1, e1⟩ := parse_complete h₁
+  obtain ⟨f2, e2⟩ := parse_complete h₂
+  have a := parse_mono (f' := f1 + f2) (by omega) e1
+  have b := parse_mono (f' := f1 + f2) (by omega) e2
+  rw [a] at b
+  exact Option.some.inj b
+
+theorem skDerives_functional {sk : Sk} {inp : List Nat} {r₁ r₂ : SkRes}
+    (h₁ : SkDerives sk inp r₁) (h₂ : SkDerives sk inp r₂) : r₁ = r₂ := by
+  obtain ⟨f1, e1⟩ := skip_complete h₁
+  obtain ⟨f2, e2⟩ := skip_complete h₂
+  have a := skip_mono (f' := f1 + f2) (by omega) e1
+  have b := skip_mono (f' := f1 + f2) (by omega) e2
+  rw [a] at b
+  exact Option.some.inj b
+
+/-- The implementation model, started anywhere in the input, produces precisely the derivable
+outcome (whenever it terminates), and every derivable outcome is produced. -/
+theorem run_iff_derives (g : G) (s : List Nat) (p : P) (sk : Sk) (pos : Nat) (r : Res) :
+    (∃ f m, M.run g s f p sk pos = some m ∧ absRes s m = r) ↔ Derives g p sk (s.drop pos) r := by
+  constructor
+  · rintro ⟨f, m, hm, rfl⟩
+    apply parse_sound (f := f)
+    rw [← run_refines, hm]; rfl
+  · intro h
+    obtain ⟨f, hf⟩ := parse_complete h
+    rw [← run_refines] at hf
+    cases hm : M.run g s f p sk pos with
+    | none => simp [hm] at hf
+    | some m => exact ⟨f, m, hm, by simpa [hm] using hf⟩
+
+/-! ## the string entry points -/
+
+/-- `parse_string` / `phrase_parse_string` / `grammar_parse_string`: the outcome is the documented
+one — skipper first; failure (with its fatal flag) of skipper or parser is passed on; success
+exactly when nothing of the input is left, a non-fatal failure otherwise. -/
+theorem parseString_iff (g : G) (p : P) (sk : Sk) (s : List Nat) (t : Top) :
+    (∃ f, M.parseString g f p sk s = some t) ↔ DerivesString g p sk s t := by
+  constructor
+  · rintro ⟨f, h⟩
+    rw [parseString_refines] at h
+    simp only [S.parseString] at h
+    cases h0 : S.skip f sk s with
+    | none => simp [h0] at h
+    | some r0 =>
+      have d0 := skip_sound h0
+      cases r0 with
+      | err ft => simp [h0] at h; subst h; exact .skipErr d0
+      | ok r0 =>
+        simp only [h0] at h
+        cases h1 : S.parse g f p sk r0 with
+        | none => simp [h1] at h
+        | some r1 =>
+          have d1 := parse_sound h1
+          cases r1 with
+          | err ft => simp [h1] at h; subst h; exact .err d0 d1
+          | ok v rest =>
+            simp only [h1] at h
+            cases rest with
+            | nil => simp at h; subst h; exact .ok d0 d1
+            | cons c r => simp at h; subst h; exact .rest d0 d1
+  · intro h
+    cases h with
+    | skipErr d0 =>
+      obtain ⟨f, e⟩ := skip_complete d0
+      exact ⟨f, by rw [parseString_refines]; simp [S.parseString, e]⟩
+    | err d0 d1 =>
+      obtain ⟨f0, e0⟩ := skip_complete d0
+      obtain ⟨f1, e1⟩ := parse_complete d1
+      have e0 := skip_mono (f' := f0 + f1) (by omega) e0
+      have e1 := parse_mono (f' := f0 + f1) (by omega) e1
+      exact ⟨f0 + f1, by rw [parseString_refines]; simp [S.parseString, e0, e1]⟩
+    | ok d0 d1 =>
+      obtain ⟨f0, e0⟩ := skip_complete d0
+      obtain ⟨f1, e1⟩ := parse_complete d1
+      have e0 := skip_mono (f' := f0 + f1) (by omega) e0
+      have e1 := parse_mono (f' := f0 + f1) (by omega) e1
+      exact ⟨f0 + f1, by rw [parseString_refines]; simp [S.parseString, e0, e1]⟩
+    | rest d0 d1 =>
+      obtain ⟨f0, e0⟩ := skip_complete d0
+      obtain ⟨f1, e1⟩ := parse_complete d1
+      have e0 := skip_mono (f' := f0 + f1) (by omega) e0
+      have e1 := parse_mono (f' := f0 + f1) (by omega) e1
+      exact ⟨f0 + f1, by rw [parseString_refines]; simp [S.parseString, e0, e1]⟩
+
+/-- **The string entry points succeed iff the whole input was consumed** (after the initial skip),
+and the value is the one of that derivation. -/
+theorem parse_string_ok_iff_all_consumed (g : G) (p : P) (sk : Sk) (s : List Nat) (v : Val) :
+    (∃ f, M.parseString g f p sk s = some (.ok v)) ↔
+      ∃ r0, SkDerives sk s (.ok r0) ∧ Derives g p sk r0 (.ok v []) := by
+  rw [parseString_iff]
+  constructor
+  · intro h; cases h with | ok d0 d1 => exact ⟨_, d0, d1⟩
+  · rintro ⟨r0, d0, d1⟩; exact .ok d0 d1
+
+/-! ## the individual clauses of the property -/
+
+/-- alternatives are tried left to right: if the left branch succeeds, that is the result -/
+theorem alt_left_biased {g : G} {a b : P} {sk : Sk} {inp : List Nat} {v : Val} {r : List Nat} {x : Res}
+    (ha : Derives g a sk inp (.ok v r)) (h : Derives g (.alt a b) sk inp x) : x = .ok (.inl v) r :=
+  derives_functional h (.altL ha)
+
+/-- … and after a non-fatal failure of the left branch the right branch runs on the *same* input
+(the input is rewound) and decides the result -/
+theorem alt_right_on_rewound_input {g : G} {a b : P} {sk : Sk} {inp : List Nat} {x : Res}
+    (ha : Derives g a sk inp (.err false)) (h : Derives g (.alt a b) sk inp x) :
+    (∃ v r, Derives g b sk inp (.ok v r) ∧ x = .ok (.inr v) r) ∨
+    (∃ ft, Derives g b sk inp (.err ft) ∧ x = .err ft) := by
+  cases h with
+  | altL h1 => cases derives_functional ha h1
+  | altFatal h1 => cases derives_functional ha h1
+  | altR _ h2 => exact .inl ⟨_, _, h2, rfl⟩
+  | altErr _ h2 => exact .inr ⟨_, h2, rfl⟩
+  | sugar hs _ => simp [IsSugar] at hs
+
+/-- in the implementation model the right branch starts at the saved position -/
+theorem alt_restores_position (g : G) (s : List Nat) (f : Nat) (a b : P) (sk : Sk) (pos q : Nat)
+    (ha : M.run g s f a sk pos = some (.err false q)) :
+    M.run g s (f + 1) (.alt a b) sk pos =
+      (match M.run g s f b sk pos with
+       | none => none
+       | some (.ok v p) => some (.ok (.inr v) p)
+       | some (.err ft p) => some (.err ft p)) := by
+  simp only [M.run, ha]
+  rcases M.run g s f b sk pos with _ | ⟨v, p⟩ | ⟨ft, p⟩ <;> rfl
+
+/-- **fatal errors stop backtracking**: a fatal failure of the first operand makes alternative,
+optional and repetition fail fatally, nothing else is tried -/
+theorem fatal_stops_backtracking {g : G} {a b : P} {sk : Sk} {inp : List Nat}
+    (ha : Derives g a sk inp (.err true)) :
+    (∀ x, Derives g (.alt a b) sk inp x → x = .err true) ∧
+    (∀ x, Derives g (.opt a) sk inp x → x = .err true) ∧
+    (∀ x, Derives g (.rep a) sk inp x → x = .err true) :=
+  ⟨fun _ h => derives_functional h (.altFatal ha), fun _ h => derives_functional h (.optFatal ha),
+   fun _ h => derives_functional h (.repFatal ha)⟩
+
+/-- `fatal p` fails fatally whenever `p` fails, and is `p` otherwise -/
+theorem fatal_marks {g : G} {a : P} {sk : Sk} {inp : List Nat} {x : Res}
+    (h : Derives g (.fatal a) sk inp x) :
+    (∃ v r, Derives g a sk inp (.ok v r) ∧ x = .ok v r) ∨ (∃ ft, Derives g a sk inp (.err ft) ∧ x = .err true) := by
+  cases h with
+  | fatalOk h1 => exact .inl ⟨_, _, h1, rfl⟩
+  | fatalErr h1 => exact .inr ⟨_, h1, rfl⟩
+  | sugar hs _ => simp [IsSugar] at hs
+
+/-- **repetitions and optionals never fail unless a fatal error occurs** -/
+theorem rep_opt_never_fail_unless_fatal {g : G} {a : P} {sk : Sk} {inp : List Nat} {ft : Bool} :
+    (Derives g (.rep a) sk inp (.err ft) → ft = true) ∧ (Derives g (.opt a) sk inp (.err ft) → ft = true) := by
+  constructor
+  · intro h
+    generalize hp : P.rep a = p at h
+    generalize hx : Res.err ft = x at h
+    induction h with
+    | repFatal _ _ => cases hx; rfl
+    | repFatalS _ _ _ => cases hx; rfl
+    | repMoreErr _ _ _ _ ih => cases hp; cases hx; exact ih rfl rfl
+    | sugar hs _ _ => subst hp; simp [IsSugar] at hs
+    | _ => first | (cases hp; done) | (cases hx; done) | (cases hp; cases hx; done)
+  · intro h
+    generalize hx : Res.err ft = x at h
+    cases h with
+    | optFatal _ => cases hx; rfl
+    | sugar hs _ => simp [IsSugar] at hs
+    | _ => cases hx
+
+/-- **repetition is greedy**: it stops only where one more element-then-skipper fails (non-fatally) -/
+theorem rep_greedy {g : G} {a : P} {sk : Sk} {inp rest : List Nat} {vs : Val}
+    (h : Derives g (.rep a) sk inp (.ok vs rest)) :
+    Derives g a sk rest (.err false) ∨ ∃ v r1, Derives g a sk rest (.ok v r1) ∧ SkDerives sk r1 (.err false) := by
+  generalize hp : P.rep a = p at h
+  generalize hx : Res.ok vs rest = x at h
+  induction h generalizing vs with
+  | repStop h1 => cases hp; cases hx; exact .inl h1
+  | repStopS h1 h2 => cases hp; cases hx; exact .inr ⟨_, _, h1, h2⟩
+  | repMore _ _ _ _ ih => cases hp; cases hx; exact ih rfl rfl
+  | sugar hs _ _ => subst hp; simp [IsSugar] at hs
+  | _ => first | (cases hp; done) | (cases hx; done) | (cases hp; cases hx; done)
+
+/-- **optional is greedy**: it yields nothing only when its operand fails -/
+theorem opt_greedy {g : G} {a : P} {sk : Sk} {inp rest : List Nat}
+    (h : Derives g (.opt a) sk inp (.ok .none rest)) : rest = inp ∧ Derives g a sk inp (.err false) := by
+  generalize hx : Res.ok .none rest = x at h
+  cases h with
+  | optNone h1 => cases hx; exact ⟨rfl, h1⟩
+  | sugar hs _ => simp [IsSugar] at hs
+  | _ => cases hx
+
+/-- **sequences run the skipper between their parts** (and nowhere else) -/
+theorem seq_skipper_between {g : G} {a b : P} {sk : Sk} {inp r3 : List Nat} {v : Val}
+    (h : Derives g (.seq a b) sk inp (.ok v r3)) :
+    ∃ va r1 r2 vb, Derives g a sk inp (.ok va r1) ∧ SkDerives sk r1 (.ok r2) ∧
+      Derives g b sk r2 (.ok vb r3) ∧ v = .pair va vb := by
+  generalize hx : Res.ok v r3 = x at h
+  cases h with
+  | seqOk h1 h2 h3 => cases hx; exact ⟨_, _, _, _, h1, h2, h3, rfl⟩
+  | sugar hs _ => simp [IsSugar] at hs
+  | _ => cases hx
+
+/-- a repetition runs the skipper after each element it keeps -/
+theorem rep_skipper_after_element {g : G} {a : P} {sk : Sk} {inp r3 : List Nat} {v vs : Val}
+    (h : Derives g (.rep a) sk inp (.ok (.cons v vs) r3)) :
+    ∃ r1 r2, Derives g a sk inp (.ok v r1) ∧ SkDerives sk r1 (.ok r2) ∧ Derives g (.rep a) sk r2 (.ok vs r3) := by
+  generalize hx : Res.ok (.cons v vs) r3 = x at h
+  cases h with
+  | repMore h1 h2 h3 => cases hx; exact ⟨_, _, h1, h2, h3⟩
+  | sugar hs _ => simp [IsSugar] at hs
+  | _ => cases hx
+
+/-- `lexeme` switches the skipper off -/
+theorem lexeme_no_skipper {g : G} {a : P} {sk : Sk} {inp : List Nat} {x : Res} :
+    Derives g (.lexeme a) sk inp x ↔ Derives g a .eps inp x := by
+  constructor
+  · intro h
+    cases h with
+    | lexeme h1 => exact h1
+    | sugar hs _ => simp [IsSugar] at hs
+  · exact .lexeme
+
+/-- **negative lookahead consumes nothing** (documented semantics) -/
+theorem not_consumes_nothing {g : G} {a : P} {sk : Sk} {inp rest : List Nat} {v : Val}
+    (h : Derives g (.not a) sk inp (.ok v rest)) : rest = inp ∧ v = .unit := by
+  generalize hx : Res.ok v rest = x at h
+  cases h with
+  | notOk _ => cases hx; exact ⟨rfl, rfl⟩
+  | sugar hs _ => simp [IsSugar] at hs
+  | _ => cases hx
+
+/-- … and in the implementation model the position after `not_` is the position before it,
+whether it succeeds or fails -/
+theorem not_restores_position (g : G) (s : List Nat) (f : Nat) (a : P) (sk : Sk) (pos : Nat) (m : MRes)
+    (h : M.run g s f (.not a) sk pos = some m) : m = .ok .unit pos ∨ m = .err false pos := by
+  cases f with
+  | zero => simp [M.run] at h
+  | succ f =>
+    simp only [M.run] at h
+    grind
+
+/-- optional / repetition that yield nothing leave the position where it was -/
+theorem opt_rep_restore_position (g : G) (s : List Nat) (f : Nat) (a : P) (sk : Sk) (pos q : Nat) :
+    (M.run g s f (.opt a) sk pos = some (.ok .none q) → q = pos) ∧
+    (M.run g s f (.rep a) sk pos = some (.ok .nil q) → q = pos) := by
+  cases f with
+  | zero => simp [M.run]
+  | succ f =>
+    constructor
+    · intro h
+      simp only [M.run] at h
+      grind
+    · intro h
+      simp only [M.run] at h
+      grind
+
+/-- behaviour of the code recorded as such: `named` replaces the error, the fatal flag is lost -/
+theorem named_clears_fatal {g : G} {a : P} {sk : Sk} {inp : List Nat} {ft : Bool}
+    (h : Derives g (.named a) sk inp (.err ft)) : ft = false := by
+  generalize hx : Res.err ft = x at h
+  cases h with
+  | namedErr _ => cases hx; rfl
+  | sugar hs _ => simp [IsSugar] at hs
+  | _ => cases hx
+
+/-- behaviour of the code recorded as such: `not_` turns *any* failure, also a fatal one, into success -/
+theorem not_swallows_fatal {g : G} {a : P} {sk : Sk} {inp : List Nat}
+    (h : Derives g a sk inp (.err true)) : Derives g (.not a) sk inp (.ok .unit inp) := .notOk h
+
+/-- `+p` is `p` followed by `*p`: at least one element, then greedy -/
+theorem plus_spec {g : G} {a : P} {sk : Sk} {inp : List Nat} {x : Res} :
+    Derives g (.plus a) sk inp x ↔ ∃ y, Derives g (.seq a (.rep a)) sk inp y ∧ x = postRes (.plus a) y := by
+  constructor
+  · intro h
+    generalize hp : P.plus a = p at h
+    cases h with
+    | sugar hs h1 => subst hp; exact ⟨_, h1, rfl⟩
+    | _ => cases hp
+  · rintro ⟨y, h1, rfl⟩
+    exact .sugar (p := .plus a) trivial h1
+
+/-- parsers only consume from the front, and a parser that is syntactically non-nullable (the
+condition well-formed grammars impose on the operand of a repetition) consumes at least one
+character whenever it succeeds — each iteration of a well-formed repetition makes progress -/
+theorem nonnullable_consumes {g : G} {p : P} {sk : Sk} {inp rest : List Nat} {v : Val}
+    (h : Derives g p sk inp (.ok v rest)) :
+    rest.length ≤ inp.length ∧ (nullable p = false → rest.length < inp.length) :=
+  progress h v rest rfl
+
+/-- **Termination** for well-formed grammars without recursion (`WF0`: no `ref`, no repetition —
+`*`, `+`, the loops of `separator`/`list` — of a nullable body) under a well-formed skipper: the
+implementation model terminates with an outcome on every input, from every start position.
+(Full statement for *recursive* well-formed grammars — Ford's `WF` with no left recursion — is NOT
+proved; soundness, refinement and determinism above do not depend on it: they hold for every fuel.) -/
+theorem wf_total_nonrec (g : G) (p : P) (hw : WF0 p) (sk : Sk) (hsk : SkWF sk) (s : List Nat) (pos : Nat) :
+    ∃ f m, M.run g s f p sk pos = some m := by
+  obtain ⟨x, hx⟩ := parse_total g (size p) p (Nat.le_refl _) hw sk hsk (s.drop pos)
+  exact let ⟨f, m, hm, _⟩ := (run_iff_derives g s p sk pos x).mpr hx; ⟨f, m, hm⟩
+
+/-- … and so do the string entry points -/
+theorem wf_total_nonrec_string (g : G) (p : P) (hw : WF0 p) (sk : Sk) (hsk : SkWF sk) (s : List Nat) :
+    ∃ f t, M.parseString g f p sk s = some t := by
+  obtain ⟨x0, h0⟩ := skip_total hsk s
+  cases x0 with
+  | err ft => exact ⟨_, _, ((parseString_iff g p sk s _).mpr (.skipErr h0)).choose_spec⟩
+  | ok r0 =>
+    obtain ⟨x, hx⟩ := parse_total g (size p) p (Nat.le_refl _) hw sk hsk r0
+    cases x with
+    | err ft => exact ⟨_, _, ((parseString_iff g p sk s _).mpr (.err h0 hx)).choose_spec⟩
+    | ok v rest =>
+      cases rest with
+      | nil => exact ⟨_, _, ((parseString_iff g p sk s _).mpr (.ok h0 hx)).choose_spec⟩
+      | cons c r => exact ⟨_, _, ((parseString_iff g p sk s _).mpr (.rest h0 hx)).choose_spec⟩
+
+/-! ## non-vacuity: concrete grammars run through the model -/
+
+def exG : G := { rules := fun i => if i = 0 then .alt (.seq (.lit 97) (.ref 0)) .eps else .fail,
+                 fn := fun _ v => v, fnIf := fun _ v => .ok v }
+
+-- a recursive rule  r0 = 'a' r0 | ε  on "aa", with a blank-skipper and blanks in the input
+example : M.parseString exG 20 (.ref 0) (.rep (.cset [32])) [32, 97, 32, 97] =
+    some (.ok (.inl (.pair .unit (.inl (.pair .unit (.inr .unit)))))) := by decide
+-- trailing input is a (non-fatal) failure
+example : M.parseString exG 20 (.lit 97) .eps [97, 98] = some (.err false) := by decide
+-- fatal stops the alternative; without `fatal` the right branch is taken
+example : M.parseString exG 20 (.alt (.seq (.lit 97) (.fatal (.lit 98))) .any) .eps [97] = some (.err true) := by decide
+example : M.parseString exG 20 (.alt (.seq (.lit 97) (.lit 98)) .any) .eps [97] = some (.ok (.inr (.ch 97))) := by decide
+-- a well-formed non-recursive parser and skipper (hypotheses of `wf_total_nonrec`)
+example : WF0 (.list (.lit 97) (.plus (.cset [98, 99])) (.lit 120) (.lit 97)) ∧ SkWF (.rep (.cset [32])) := by
+  simp [WF0, SkWF, nullable, skNullable]
+-- the hypotheses of the clause theorems are satisfiable
+example : Derives exG (.lit 97) .eps [97] (.ok .unit []) := .litOk _ _ _
+example : Derives exG (.fatal (.lit 97)) .eps [98] (.err true) := .fatalErr (.litNo _ _ _ _ (by decide))
+example : Derives exG (.rep (.lit 97)) .eps [97, 98] (.ok (.cons .unit .nil) [98]) :=
+  .repMore (.litOk _ _ _) (.eps _) (.repStop (.litNo _ _ _ _ (by decide)))
+
+end Fcppt.C02
